@@ -114,6 +114,7 @@ pub fn scenario(ctx: &Ctx, idx: u64, check: &'static str, stream: &'static str) 
         } else {
             vec![plans[0].addr]
         };
+        net.set_send_yield(*[0.0, 0.0, 0.3, 1.0].choose(&mut rng).unwrap());
         let dht = spawn_node(&net, &cfg);
         report.evaluations += 1;
         report.distinct(format!(
